@@ -93,6 +93,8 @@ impl TokenizerSlice {
         if false {
             println!("slice{} {}", self.idx, res);
         }
+        #[cfg(feature = "llg_verif")]
+        VERIF_SLICE_LOG.with(|l| l.borrow_mut().push((self.idx, res)));
         res
     }
 
@@ -390,5 +392,35 @@ impl BiasComputer for SlicedBiasComputer {
 
     fn trie(&self) -> &TokTrie {
         self.tok_env.tok_trie()
+    }
+}
+
+// Verification hooks (feature `llg_verif`): outcome of every containment test, and the slice tree.
+#[cfg(feature = "llg_verif")]
+thread_local! {
+    pub static VERIF_SLICE_LOG: std::cell::RefCell<Vec<(usize, bool)>> = const { std::cell::RefCell::new(Vec::new()) };
+}
+
+#[cfg(feature = "llg_verif")]
+#[derive(Debug, Clone)]
+pub struct VerifSlice {
+    pub idx: usize,
+    pub regex: String,
+    pub mask_with_children: Vec<u32>,
+    pub children: Vec<VerifSlice>,
+}
+
+#[cfg(feature = "llg_verif")]
+impl SlicedBiasComputer {
+    pub fn verif_dump(&self) -> VerifSlice {
+        fn rec(s: &TokenizerSlice) -> VerifSlice {
+            VerifSlice {
+                idx: s.idx,
+                regex: s.regex.clone(),
+                mask_with_children: s.mask_with_children.to_list(),
+                children: s.children.iter().map(rec).collect(),
+            }
+        }
+        rec(&self.top_slice)
     }
 }
